@@ -407,6 +407,7 @@ func runC02(c *Ctx, r *Report, tier string) {
 		_, b := c.Requires(ivv, isInstr(ret), anyLit(
 			litHas(false, "call:(*Option).isSignedNumber(P0)"),
 			litIs("lt(1, len(P1))", false),
+			litIs("lt(len(P1), 2)", true),
 			litIs("eq(45, idx(P1, 0))", false),
 			litIs("lt(idx(P1, 1), 48)", true),
 			litIs("lt(57, idx(P1, 1))", true),
